@@ -33,3 +33,21 @@ Theorem c09_reqrep_never_parks_unarmed : forall tr s, rrun rinit tr = Some s -> 
   (exists l, is_armed (SSink l) (rarmed s) = true) \/ rh_armed s = true.
 Proof. exact rr_never_parks_unarmed. Qed.
 Print Assumptions c09_reqrep_never_parks_unarmed.
+
+(** "never sleeps on undone work", the buffers: when a poll returns Pending in a step in which no
+    sink answered Pending (so the router is parking on its streams and the registration channel,
+    not waiting for a peer to accept data), nothing it could still act on is buffered.
+    pub/sub: the message pulled from a publisher has been handed to the subscribers *)
+Theorem c09_pubsub_parks_only_when_drained : forall tr s e s',
+  run init tr = Some s -> step s e = Some s' -> ctl s' = PReturn false -> sink_pending e = false ->
+  buffered s' = None.
+Proof. exact ps_parks_only_when_drained. Qed.
+Print Assumptions c09_pubsub_parks_only_when_drained.
+
+(** request/reply: no reply and no rejection is waiting, and a request is waiting only if no
+    replier is bound to take it *)
+Theorem c09_reqrep_parks_only_when_drained : forall tr s e s',
+  rrun rinit tr = Some s -> rstep s e = Some s' -> rctl s' = RReturn false -> rr_pending_answer e = false ->
+  b_rep s' = None /\ b_err s' = None /\ (b_req s' = None \/ server s' = None).
+Proof. exact rr_parks_only_when_drained. Qed.
+Print Assumptions c09_reqrep_parks_only_when_drained.
